@@ -260,7 +260,9 @@ class Case:
     env = {}                 # kwargs for symbolic_env (np_proxy_modules, extra, noconj)
     real_env = {}            # module-global shadowing also needed in real mode
     timeout_s = 120
-    first_timeout_s = 10
+    first_timeout_s = 10        # (legacy knob, unused by the default strategy)
+    presearch_attempts = 3      # quick instance search before the full query (0 = off)
+    wall_limit_s = 900          # hard wall-clock limit of the whole case (worker is killed)
     tol = 1e-7
     stubs = ()
     assumptions = ()
@@ -484,21 +486,27 @@ def execute_case(prop, case, tier, seed):
                     res["queries"].append(q)
                     continue
                 q["hash"] = hashlib.sha1(fs.sexpr().encode()).hexdigest()[:12] if len(res["queries"]) < 400 else "-"
-                # short full query first (identities are proved in seconds; refuting a
-                # non-identity directly is slow for nlsat), then instance search, then long query
-                r, m, dt = check_formula(f, side, min(case.first_timeout_s, case.timeout_s))
-                res["solver_s"] += dt
-                values = None
-                if r == "unknown":
-                    values, dt2 = guided_search(f, side, rnd, min(40, case.timeout_s))
-                    res["solver_s"] += dt2
-                    q["guided"] = "sat" if values is not None else "none"
-                    if values is not None:
-                        r = "sat"
-                    else:
-                        r, m, dt = check_formula(f, side, case.timeout_s)
-                        res["solver_s"] += dt
-                        if r == "unknown":
+                # Strategy: (1) quick instance search (2.3) -- refuting a non-identity directly can
+                # hang nlsat beyond its timeout, while an instance of a wrong identity is found in
+                # milliseconds and an instance of a valid one simplifies to false; (2) full query
+                # (only `unsat` of the FULL query is ever reported as "holds"); (3) longer instance
+                # search if the full query is unknown.
+                values, dt0 = (None, 0.0)
+                if case.presearch_attempts:
+                    values, dt0 = guided_search(f, side, rnd, min(20, case.timeout_s), attempts=case.presearch_attempts)
+                    res["solver_s"] += dt0
+                r, m, dt = ("sat", None, dt0) if values is not None else check_formula(f, side, case.timeout_s)
+                if values is not None:
+                    q["guided"] = "sat (pre-search)"
+                else:
+                    res["solver_s"] += dt
+                    if r == "unknown":
+                        values, dt2 = guided_search(f, side, rnd, min(40, case.timeout_s))
+                        res["solver_s"] += dt2
+                        q["guided"] = "sat" if values is not None else "none"
+                        if values is not None:
+                            r = "sat"
+                        else:
                             res["inconclusive"].append({"label": ob.label, "path": pi, "why": "solver unknown, no instance model"})
                 if r == "sat" and values is None:
                     values = model_to_values(m, sym.free_vars(f, *side))
@@ -609,6 +617,58 @@ def _exception_replay(case, seed):
     return None
 
 
+def _child(conn, a):
+    try:
+        conn.send(_worker(a))
+    except BaseException as e:  # noqa
+        conn.send({"case": "?", "bounds": {}, "queries": [], "violations": [], "inconclusive": [],
+                   "errors": ["worker crashed: %r" % (e,)], "paths": 0, "functions": [], "twins": [], "validated": 0,
+                   "solver_s": 0.0, "stubs": [], "assumptions": [], "samples": [], "wall_s": 0.0})
+    finally:
+        conn.close()
+
+
+def _run_with_deadlines(args, jobs, case_objs):
+    """one forked process per case, at most `jobs` at a time, each killed at its wall-clock limit
+    (z3 does not always honour its own timeout); a killed case is inconclusive, never success"""
+    ctx = mp.get_context("fork")
+    pending = list(zip(args, case_objs))
+    running = []
+    results = []
+    while pending or running:
+        while pending and len(running) < jobs:
+            a, c = pending.pop(0)
+            pc, cc = ctx.Pipe(duplex=False)
+            p = ctx.Process(target=_child, args=(cc, a))
+            p.start()
+            cc.close()
+            running.append((p, pc, c, time.time()))
+        still = []
+        for p, pc, c, t0 in running:
+            if pc.poll(0.05):
+                try:
+                    results.append(pc.recv())
+                except EOFError:
+                    results.append(_dead_result(c, "worker died without a result"))
+                p.join(5)
+            elif not p.is_alive():
+                results.append(_dead_result(c, "worker died without a result (exit code %s)" % p.exitcode))
+            elif time.time() - t0 > c.wall_limit_s:
+                p.kill()
+                p.join(5)
+                results.append(_dead_result(c, "hard wall-clock limit of %d s exceeded (solver did not honour its timeout)" % c.wall_limit_s))
+            else:
+                still.append((p, pc, c, t0))
+        running = still
+    return results
+
+
+def _dead_result(case, why):
+    return {"case": case.id, "bounds": case.bounds, "queries": [], "violations": [], "inconclusive": [{"label": "*", "why": why}],
+            "errors": [], "paths": 0, "functions": [], "twins": [], "validated": 0, "solver_s": 0.0, "stubs": list(case.stubs),
+            "assumptions": list(case.assumptions), "samples": [], "wall_s": float(case.wall_limit_s)}
+
+
 def _worker(args):
     modname, case_index, prop, tier, seed = args
     mod = __import__(modname, fromlist=["*"])
@@ -664,10 +724,7 @@ def run_property(prop, modname, tier, seed, jobs=None, only=None, extra_results=
         for a in args:
             results.append(_worker(a))
     else:
-        ctx = mp.get_context("fork")
-        with ctx.Pool(jobs, maxtasksperchild=1) as pool:
-            for r in pool.imap_unordered(_worker, args, chunksize=1):
-                results.append(r)
+        results = _run_with_deadlines(args, jobs, [cases[i] for i in idx])
     results.sort(key=lambda r: r["case"])
     if extra_results:
         results.extend(extra_results)
